@@ -8,6 +8,7 @@ import math
 from .common import (COMPONENTS, EngineCrash, Monitor, Stuck, Violation, World, gen_config, note_trace,
                      run_key_of, std_finish, opseq)
 from ref.evalhand import best_key
+from ref import settle as rs
 from sim import boot
 from sim.executor import SimExecutor
 from sim.config import AUTOS
@@ -31,7 +32,10 @@ RULE = ('one run = one simulated hand (all variants incl. hi-lo, single board) p
         'hole cards): for every seed and schedule the result is non-negative and sums to 1, every sampled deal consists of '
         'distinct cards disjoint from the known ones and the unknown cards are re-drawn per sample (observed through a '
         'recording hand type passed via the public hand_types argument), and on complete boards the sampled hand strength '
-        'is within 6 standard errors of the exact enumeration with ref/evalhand.py. non-trivial = single-pot showdown with '
+        'is within 6 standard errors of the exact enumeration with ref/evalhand.py. Two further probes on full deals: a hole '
+        'card and a board card change places (same cards, other hands) and the result must equal the settlement model with '
+        'ref/evalhand.py; and every player gets a range of several combinations that collide with the other players\' '
+        'cards, where the result must still be non-negative and sum to 1 for every seed and schedule. non-trivial = single-pot showdown with '
         '>= 2 players; distinct = distinct (variant, players, winners pattern) tuples')
 ASSUMPTIONS = [
     'only the equity clauses of C18 are decided; range-notation identities and ICM are pure functions of their input',
@@ -172,6 +176,58 @@ def analyse(ch, ctx, st, pre, run_key):
     ctx.count('hi_lo_showdowns', len(hand_types) > 1)
     ctx.count('split_pots', len(winners) > 1)
     ctx.notes['shape'] = (n, winners, tuple(str(s) for s in share))
+    names_all = [h.__name__ for h in hand_types]
+    # ---- the same cards split differently between hand and board (fault: evaluation order / stale state) -----------------
+    # One of player 0's hole cards changes places with a board card: every player's hole+board card SET is unchanged or
+    # nearly so, the hands are not.  Expected shares come from the settlement model with ref/evalhand.py, not from a hand.
+    if board and ch.chance('c18.resplit', 1, 2):
+        a = ch.pick('c18.resplit.hole', len(holes[0]))
+        b = ch.pick('c18.resplit.board', len(board))
+        holes_r = [list(h) for h in holes]
+        board_r = list(board)
+        holes_r[0][a], board_r[b] = board_r[b], holes_r[0][a]
+        want = rs.settle([(Fraction(1), tuple(range(n)))], [True] * n, names_all, holes_r, [board_r])
+        boot.set_run_key(f'{run_key}-resplit')
+        ex = SimExecutor(ch, ctx) if ch.pick('c18.resplit.exec', 2) else None
+        try:
+            eq = calculate_equities([[h] for h in holes_r], board_r, hc, bc, deck, hand_types, sample_count=3, executor=ex)
+        except Exception as e:      # noqa: BLE001
+            raise Violation('C18.exc', f'calculate_equities on a full deal raised {type(e).__name__}: {e}; holes {holes_r} '
+                            f'board {board_r}', rule='exc', exc=type(e).__name__)
+        check_vector(eq, n, 're-split full deal')
+        ctx.count('resplit_deals')
+        if any(abs(float(w) - e) > TOL for w, e in zip(want, eq)):
+            raise Violation('C18.resplit', f'after {holes[0][a]!r} and {board[b]!r} changed places (holes {holes_r}, board '
+                            f'{board_r}, hand types {names_all}) the equities are {eq}, the rules give '
+                            f'{[str(w) for w in want]}; before the exchange they were {results[0]}', rule='resplit')
+    # ---- ranges of several combinations that collide with each other (fault: rejected selections) ----------------------
+    if ch.chance('c18.overlap', 1, 2):
+        known = [c for h in holes for c in h] + list(board)
+        free = sorted((c for c in deck if c not in known), key=repr)
+        ranges_o = []
+        for i in range(n):
+            combos = [list(holes[i])]
+            for _ in range(1 + ch.pick('c18.overlap.extra', 3)):
+                other = holes[(i + 1 + ch.pick('c18.overlap.from', n - 1)) % n] if n > 1 else holes[i]
+                alt = list(holes[i])
+                # an alternative holding that takes a card from ANOTHER player's holding (or a free card)
+                src = other if ch.pick('c18.overlap.kind', 3) else free
+                if src:
+                    alt[ch.pick('c18.overlap.pos', len(alt))] = src[ch.pick('c18.overlap.card', len(src))]
+                if len(set(alt)) == len(alt) and alt not in combos:
+                    combos.append(alt)
+            ranges_o.append(combos)
+        k = 4 + ch.pick('c18.overlap.samples', 12)
+        for kind in ('none', 'sim'):
+            boot.set_run_key(f'{run_key}-ov-{kind}')
+            ex = SimExecutor(ch, ctx) if kind == 'sim' else None
+            try:
+                eq = calculate_equities(ranges_o, board, hc, bc, deck, hand_types, sample_count=k, executor=ex)
+            except Exception as e:      # noqa: BLE001
+                raise Violation('C18.exc', f'calculate_equities with colliding ranges raised {type(e).__name__}: {e}; ranges '
+                                f'{ranges_o} board {board}', rule='exc', exc=type(e).__name__)
+            check_vector(eq, n, f'colliding ranges {ranges_o}, board {board}, executor={kind}, samples={k}')
+            ctx.count('colliding_range_calls')
     # ---- cards removed: sampling --------------------------------------------------------------------------
     plan = ch.pick('c18.missing', 3)
     holes2 = [list(h) for h in holes]
